@@ -88,6 +88,10 @@ def cases(seed, tier):
                         "args": {"signal": SIGS[i], "value": 1, "release_value": 0, "after": rng.choice([0.0, 0.3, 1.0, 5.0])},
                     }
                 )
+                sl = case["suspenders"][f"s{i}"]["kwargs"].get("sleep", 0)
+                if rng.random() < (0.4 if sl else 0.1):
+                    # the signal flaps: bad again during (or right after) the settle time of the first release
+                    inj[-1]["args"]["then"] = [[rng.choice([0.0, 0.1, 0.3 * sl, 0.9 * sl, 1.5 * sl]) if sl else rng.choice([0.0, 0.1]), 1], [rng.choice([0.0, 0.2, 1.0, 3.0]), 0]]
         inj.sort(key=lambda x: x["at"]["step"])
         c["script"][ci]["inject"] = inj
         # a Pausable device that refuses to be replayed (pause() raises NoReplayAllowed): the engine then must not
@@ -116,14 +120,14 @@ def check(res):
     for inv in v.invocations:
         evs = inv.events
         # release times: when each signal went low after having been high
-        low_at = {}
-        high = {}
+        # the transitions of each suspender's signal (it may flap: high, low, high again within the settle time ...)
+        trans = {s: [] for s in sleeps}
         for e in evs:
             if e.kind == "dev" and e.d["method"] == "put" and e.d["dev"] in sleeps:
-                if e.d["value"]:
-                    high[e.d["dev"]] = e
-                elif e.d["dev"] in high:
-                    low_at.setdefault(e.d["dev"], []).append(e)
+                tr = trans[e.d["dev"]]
+                val = bool(e.d["value"])
+                if val != (tr[-1][1] if tr else False):
+                    tr.append((e, val))
         # walk the message trace with a helper stack
         helpers = []  # {"sig":..., "start":Ev, "phase": pre|post, "wait_for": Ev|None}
         in_effect = []  # [(sig, start_ev, until_time)]
@@ -142,13 +146,28 @@ def check(res):
             if cmd == "_start_suspender":
                 just = e.d["args"][2] if len(e.d["args"]) > 2 else ""
                 sig = next((s for s in sleeps if isinstance(just, str) and f"Signal {s} " in just), None)
-                lows = [x for x in low_at.get(sig, []) if x.seq > high.get(sig, e).seq - 1]
-                if sig is None or not lows:
+                tr = trans.get(sig, [])
+                ks = [i for i, (x, val) in enumerate(tr) if val and x.seq < e.seq]
+                if sig is None or not ks or ks[-1] + 1 >= len(tr):
                     helpers.append({"sig": sig, "start": e, "phase": "pre", "until": None})
                     continue
-                until = lows[-1].t + sleeps[sig]
-                helpers.append({"sig": sig, "start": e, "phase": "pre", "until": until, "wait_for": None})
-                in_effect.append((sig, e, until))
+                k = ks[-1]
+                # this suspension's own release: the signal's return to nominal after the trip, plus the settle time
+                own = tr[k + 1][0].t + sleeps[sig]
+                # ... and the plan is held for longer when the signal goes bad again before that: the new trip is a
+                # new suspension on top (it arrives while the engine is certainly running: inside this very suspension)
+                until = own
+                j = k + 1
+                while until is not None and j + 1 < len(tr) and tr[j + 1][0].t < until - 1e-9:
+                    if j + 2 < len(tr):
+                        until = max(until, tr[j + 2][0].t + sleeps[sig])
+                        j += 2
+                        res.notes["retrip_during_settle"] = res.notes.get("retrip_during_settle", 0) + 1
+                    else:
+                        until = None  # never released again within the case: nothing to compare with
+                helpers.append({"sig": sig, "start": e, "phase": "pre", "until": own, "wait_for": None})
+                if until is not None:
+                    in_effect.append((sig, e, until))
                 res.notes["suspensions"] = res.notes.get("suspensions", 0) + 1
                 if len([h for h in helpers if h.get("until")]) > 1:
                     res.notes["overlapping_suspensions"] = res.notes.get("overlapping_suspensions", 0) + 1
